@@ -516,6 +516,7 @@ func (w *world) apply(line string) string {
 		w.checkPayouts("transferShares", kind, from, to, v, erf, ert, bf, bt)
 		w.checkFresh("transferShares", kind, from, to, v)
 		ret = w.retOf(kind, precompile.NewTransferSharesMethod(nil).TransferShare)
+		w.checkRet("transferShares", kind, from, to, v, x, before, bt)
 		w.transferStats(before, kind, from, to, v, x, erf)
 	case "transferFrom":
 		a := ints(4)
@@ -535,6 +536,7 @@ func (w *world) apply(line string) string {
 		w.checkPayouts("transferFromShares", kind, from, to, v, erf, ert, bf, bt)
 		w.checkFresh("transferFromShares", kind, from, to, v)
 		ret = w.retOf(kind, precompile.NewTransferFromSharesMethod(nil).TransferShare)
+		w.checkRet("transferFromShares", kind, from, to, v, x, before, bt)
 		w.transferStats(before, kind, from, to, v, x, erf)
 		allow1 := app.StakingKeeper.GetAllowance(w.ctx(), w.vals[v], w.accs[from], w.accs[sp])
 		if kind == "ok" {
@@ -614,6 +616,34 @@ func (w *world) retOf(kind string, m *precompile.TransferShare) string {
 		return " ret=undecodable"
 	}
 	return fmt.Sprintf(" ret=%s:%s", token, reward)
+}
+
+// checkRet: the call reports the token worth of the moved shares at the validator's exchange rate and exactly the
+// reward coins the recipient was paid.
+func (w *world) checkRet(name, kind string, from, to, v int, x *big.Int, before snap, bt sdkmath.Int) {
+	if kind != "ok" || w.dead {
+		return
+	}
+	token, reward, err := precompile.NewTransferSharesMethod(nil).UnpackOutput(w.lastRet)
+	if err != nil {
+		w.violate(name + " returned undecodable data")
+		return
+	}
+	val, err := w.s.App.StakingKeeper.GetValidator(w.ctx(), w.vals[v])
+	if err != nil {
+		return
+	}
+	if want := val.TokensFromShares(sdkmath.LegacyNewDecFromBigInt(x)).TruncateInt().BigInt(); token.Cmp(want) != 0 {
+		w.violate(fmt.Sprintf("%s of %s shares reported token worth %s, TokensFromShares(shares) = %s", name, x, token, want))
+		return
+	}
+	paid := big.NewInt(0)
+	if from != to {
+		paid = w.bal(to).Sub(bt).BigInt()
+	}
+	if reward.Cmp(paid) != 0 {
+		w.violate(fmt.Sprintf("%s reported %s reward coins for the recipient, who was paid %s", name, reward, paid))
+	}
 }
 
 // transferStats records the measured distribution of the transfer inputs.
@@ -1002,6 +1032,9 @@ func (g *gen) pickTo(from int) int {
 	us := g.users()
 	if g.rng.Intn(6) == 0 {
 		return from // self
+	}
+	if g.rng.Intn(10) == 0 {
+		return g.rng.Intn(len(g.w.accs)) // any account, validator operators (holders of a self-delegation) included
 	}
 	return hx.Pick(g.rng, us)
 }
